@@ -190,7 +190,7 @@ Definition head_lines (d : bytes) : presult (list bytes) :=
 Fixpoint until_empty (ls : list bytes) : list bytes :=
   match ls with [] => [] | l :: r => if bytes_eqb l [] then [] else l :: until_empty r end.
 
-(* last Some value among the headers called `lit` (cookie / referer: later header overwrites) *)
+(* last Some value among the headers called `lit` (referer: a later header overwrites) *)
 Definition last_value (lit : bytes) (hs : list hdr) : option bytes :=
   fold_left (fun acc h => if eq_lower (hd_name h) lit then
                             match hd_value h with Some v => Some v | None => acc end else acc) hs None.
@@ -202,6 +202,14 @@ Fixpoint first_value (lit : bytes) (hs : list hdr) : option bytes :=
                 match hd_value h with Some v => Some v | None => first_value lit r end
               else first_value lit r
   end.
+
+(* cookie_header_value: the values of all headers called `lit`, joined by "; " in wire order
+   (Some(match prev.take() { Some(p) => format!("{p}; {value}"), None => value.clone() })) *)
+Definition joined_value (lit : bytes) (hs : list hdr) : option bytes :=
+  fold_left (fun acc h => if eq_lower (hd_name h) lit then
+                            match hd_value h with
+                            | Some v => Some (match acc with Some prev => prev ++ bs "; " ++ v | None => v end)
+                            | None => acc end else acc) hs None.
 
 Record h1_request := {
   r_method : bytes; r_uri : bytes; r_version : http_version;
@@ -226,7 +234,7 @@ Definition parse_request (d : bytes) : presult h1_request :=
               let headers := filter (fun h => negb (is_cookie_or_referer h)) all in
               POk {| r_method := m; r_uri := u; r_version := ver;
                      r_headers := headers;
-                     r_cookies := match last_value (bs "cookie") all with
+                     r_cookies := match joined_value (bs "cookie") all with
                                   | Some v => parse_cookies v | None => [] end;
                      r_referer := last_value (bs "referer") all;
                      r_user_agent := first_value (bs "user-agent") headers;
